@@ -101,7 +101,7 @@ claim(
 claim(
     "C13",
     "Lean 4 proof (exactness of the visitor w.r.t. an inductive reachability relation and, through a logical relation between the visitor's context and the specification's bindings, w.r.t. the meaning specification; rejection iff conflict; permutation invariance incl. macro bodies; bridge to C03_interleave) + differential correspondence with the used-qubit visitor, DiscoverSubcircuits and the emulator",
-    "Theorems C13_exact(_stmt), C13_fuel_irrelevant, C13_leaf_*, C13_busy, C13_idle, C13_reject, C13_exact_spec / C13_exact_parsed, C13_order_used / _accept, C13_orderC_used / _accept / _reject, C13_indep_of_disjoint, C13_order_state(_perm) prove for every circuit and sub-statement that the analysis returns exactly the qubits some reachable gate acts on (through blocks, loops, macro calls with arguments evaluated in the caller's scope, aliases and lets; busy gates = all, idle gates = none) — for every circuit parse_jaqal_string builds, exactly the fundamental qubits on which some gate application of the circuit's MEANING (Spec/Sem.lean: macros by substitution, registers as lists of qubits) acts —, that the emulator's check rejects exactly when two branches of a reachable parallel block (or two arguments of one gate) act on a common qubit, that permuting the branches of any parallel blocks, in the body and in macro bodies, changes neither the used sets nor acceptance, and that any permutation of pairwise independent branches leaves the state vector unchanged (through C03_interleave).",
+    "Theorems C13_exact(_stmt), C13_fuel_irrelevant, C13_leaf_*, C13_busy, C13_idle, C13_reject, C13_exact_spec / C13_exact_parsed, C13_order_used / _accept, C13_orderC_used / _accept / _reject, C13_indep_of_disjoint, C13_order_state(_perm), and over the whole run model C13_run_accept / C13_run_reject (a result is produced only if no reachable parallel block of the expanded program has overlapping branches; a conflict is refused with the JaqalError of the check before anything is serialised) prove for every circuit and sub-statement that the analysis returns exactly the qubits some reachable gate acts on (through blocks, loops, macro calls with arguments evaluated in the caller's scope, aliases and lets; busy gates = all, idle gates = none) — for every circuit parse_jaqal_string builds, exactly the fundamental qubits on which some gate application of the circuit's MEANING (Spec/Sem.lean: macros by substitution, registers as lists of qubits) acts —, that the emulator's check rejects exactly when two branches of a reachable parallel block (or two arguments of one gate) act on a common qubit, that permuting the branches of any parallel blocks, in the body and in macro bodies, changes neither the used sets nor acceptance, and that any permutation of pairwise independent branches leaves the state vector unchanged (through C03_interleave).",
     COMMON_NOTE + "C13_exact_parsed carries one proviso: gate definitions handed in through the configuration are not tagged as macros (Python's GateDefinition objects never are). The literal C13_exact_full of Props/C13.lean quantifies over hand-built circuits the builder never makes (float sizes, slices leaving their source) and is not claimed; the oracle used_exact_pipeline checks exactness on the real code.",
     "DESIGN.md §7 C13",
 )
